@@ -1042,6 +1042,38 @@ fn run_exec_mt(tape: &mut Tape, nthreads: usize, maxlen: usize, verbose: bool) -
 // ------------------------------------------------------------------------------------------
 // C11: wakeup / run / block_on
 
+/// A source without any registration that opts into the lifecycle hooks; its `before_sleep` is a
+/// scheduling point (user code running inside `dispatch` right before the wait).
+struct HookPoint;
+
+impl calloop::EventSource for HookPoint {
+    type Event = ();
+    type Metadata = ();
+    type Ret = ();
+    type Error = std::io::Error;
+    fn process_events<F>(&mut self, _: calloop::Readiness, _: calloop::Token, _: F) -> Result<calloop::PostAction, Self::Error>
+    where
+        F: FnMut((), &mut ()),
+    {
+        Ok(calloop::PostAction::Continue)
+    }
+    fn register(&mut self, _: &mut calloop::Poll, _: &mut calloop::TokenFactory) -> calloop::Result<()> {
+        Ok(())
+    }
+    fn reregister(&mut self, _: &mut calloop::Poll, _: &mut calloop::TokenFactory) -> calloop::Result<()> {
+        Ok(())
+    }
+    fn unregister(&mut self, _: &mut calloop::Poll) -> calloop::Result<()> {
+        Ok(())
+    }
+    const NEEDS_EXTRA_LIFECYCLE_EVENTS: bool = true;
+    fn before_sleep(&mut self) -> calloop::Result<Option<(calloop::Readiness, calloop::Token)>> {
+        sched::point("before_sleep");
+        Ok(None)
+    }
+    fn before_handle_events(&mut self, _: calloop::EventIterator<'_>) {}
+}
+
 fn run_signal(tape: &mut Tape, which: &str, verbose: bool) -> Outcome {
     STAMP.store(0, Ordering::SeqCst);
     let mut out = Outcome::default();
@@ -1055,7 +1087,14 @@ fn run_signal(tape: &mut Tape, which: &str, verbose: bool) -> Outcome {
     let mut obs: Vec<u64> = vec![];
     // a timer armed an hour ahead sits in the loop: every wait is then bounded by its deadline,
     // which is far beyond the horizon, and must behave exactly like the unbounded wait
-    let with_timer = choose_free(2) == 1;
+    let env = choose_free(3);
+    let with_timer = env == 1;
+    if env == 2 {
+        // user code runs inside dispatch between its first step and the wait (a source with the
+        // extra lifecycle hooks): the other thread may act exactly there
+        out.decoded.push("a lifecycle source whose before_sleep is a scheduling point is inserted".into());
+        el.handle().insert_source(HookPoint, |_, _, _: &mut u32| {}).expect("insert hook source");
+    }
     if with_timer {
         out.decoded.push("a timer armed 1 h ahead is inserted".into());
         el.handle()
@@ -1526,6 +1565,17 @@ fn run_signal(tape: &mut Tape, which: &str, verbose: bool) -> Outcome {
     }
     if let Some(e) = err {
         out.violations.push(viol(&["C11"], "dispatch-error", &[], format!("loop call failed: {e}")));
+    }
+    if with_timer {
+        out.clauses.push("far-timer-silent");
+        if n >= 1000 {
+            out.violations.push(viol(
+                &["C05", "C12", "C11"],
+                "timer-early",
+                &[("driver", which.to_string())],
+                format!("the timer armed one hour ahead fired {} time(s) within an execution that lasts milliseconds: a wake-up of the loop was taken for its deadline", n / 1000),
+            ));
+        }
     }
     out.callbacks = 1;
     let mut h = std::collections::hash_map::DefaultHasher::new();
